@@ -289,4 +289,33 @@ def wellFormed (T : SymTable) : List Kind → List Arg → Prop
 /-- every value in the table is a signed 64-bit number, and register names are not defined -/
 def tableOk (T : SymTable) : Prop := ∀ s v, T s = some v → inI64 v = true ∧ isRegister s = false
 
+/-! ## The documented names, written out (independent of the model's tables)
+
+The operand and mnemonic lookups above go through the model's `Front.regl` / `Front.sysl` / `Front.mnemonic`.  These lists are
+the names as a reader of the ARMv6-M manual and of the assembler's documentation would write them down; `Props/C04Names.lean`
+proves (by evaluation) that the model's tables are exactly these lists. -/
+
+/-- general-purpose register names and numbers, with the three aliases -/
+def docRegisters : List (String × Nat) :=
+  [("R0", 0), ("R1", 1), ("R2", 2), ("R3", 3), ("R4", 4), ("R5", 5), ("R6", 6), ("R7", 7), ("R8", 8), ("R9", 9),
+   ("R10", 10), ("R11", 11), ("R12", 12), ("R13", 13), ("SP", 13), ("R14", 14), ("LR", 14), ("R15", 15), ("PC", 15)]
+
+/-- special registers of MRS/MSR with their SYSm numbers (ARMv6-M ARM, B5.1) -/
+def docSysRegisters : List (String × Nat) :=
+  [("APSR", 0), ("IAPSR", 1), ("EAPSR", 2), ("XPSR", 3), ("IPSR", 5), ("EPSR", 6), ("IEPSR", 7), ("MSP", 8), ("PSP", 9),
+   ("PRIMASK", 16), ("CONTROL", 20)]
+
+/-- the mnemonics the assembler knows (alphabetical, as documented) -/
+def docMnemonics : List String :=
+  ["ADCS", "ADD", "ADDS", "ADR", "ANDS", "ASRS", "B", "BCC", "BCS", "BEQ", "BGE", "BGT", "BHI", "BHS", "BIC", "BICS", "BKPT",
+   "BL", "BLE", "BLO", "BLS", "BLT", "BLX", "BMI", "BNE", "BPL", "BVC", "BVS", "BX", "CMN", "CMP", "CPSID", "CPSIE", "DMB",
+   "DSB", "EORS", "ISB", "LDM", "LDR", "LDRB", "LDRH", "LDRSB", "LDRSH", "LSLS", "LSRS", "MOV", "MOVS", "MRS", "MSR", "MULS",
+   "MVNS", "NOP", "ORRS", "POP", "PUSH", "REV", "REV16", "REVSH", "RORS", "RSBS", "SBCS", "SEV", "STM", "STR", "STRB", "STRH",
+   "SUB", "SUBS", "SVC", "SXTB", "SXTH", "TST", "UDF.N", "UDF.W", "UXTB", "UXTH", "WFE", "WFI", "YIELD"]
+
+/-- conditional branches and their condition numbers (ARMv6-M ARM, A6.3), `B` = always (14) -/
+def docBranches : List (String × Nat) :=
+  [("BEQ", 0), ("BNE", 1), ("BCS", 2), ("BHS", 2), ("BCC", 3), ("BLO", 3), ("BMI", 4), ("BPL", 5), ("BVS", 6), ("BVC", 7),
+   ("BHI", 8), ("BLS", 9), ("BGE", 10), ("BLT", 11), ("BGT", 12), ("BLE", 13), ("B", 14)]
+
 end Trion.C04
